@@ -1,1774 +1,8 @@
-//! C06 — packet protection round-trips and rejects any modified packet.
-//!
-//! E0 exhaustive enumeration over the real qbase packet code.
-//!
-//! * keys: Initial keys from `rustls::quic::Keys::initial` (as `qconnection::builder::
-//!   initial_keys_with`), Handshake / 0-RTT / 1-RTT keys and `Secrets` from a real in-process
-//!   rustls QUIC handshake (fresh per case; second, resumed handshake for early-data keys);
-//! * send path: `PacketWriter::new_long/new_short` → `assemble_packet` / `BufMut` →
-//!   `encrypt_and_protect_packet` (the sequence of `qconnection::tx` + `space::*::new_packet`);
-//! * receive path: `PacketReader` (every packet of the datagram, as `qtraversal::route`) →
-//!   routing on the DCID (`QuicRouter::find_entry`) → per-type queue (`RcvdPacketQueue::deliver`,
-//!   VN / Retry ignored) → `CipherPacket::decrypt_{long,short}_packet` (replica in `rx.rs`) with
-//!   the space's `decode_pn` (`expected` = largest received + 1) and `ArcOneRttKeys`.
-//!
-//! What the callers (`qconnection::space::{initial,handshake,data}::parse_normal_packet`) do with
-//! the wrapper's return value: `None` ⇒ packet dropped silently; `Some(Err(e))` ⇒ `?` ⇒
-//! `event_broker.emit(Event::Failed(e))` ⇒ the connection is closed with that error;
-//! `Some(Ok(p))` ⇒ frames are read and dispatched. Hence the three outcome classes.
-use std::{
-    collections::{BTreeMap, HashSet},
-    time::{Duration, Instant},
-};
-
-use bytes::{BufMut, Bytes, BytesMut};
-use mc_core::{
-    Args, Report,
-    panics::{PanicInfo, catch},
-    par::par_map,
-    report::Coverage,
-};
-use qbase::{
-    cid::ConnectionId,
-    frame::PingFrame,
-    packet::{
-        AssemblePacket, DataHeader, EncodeHeader, GetDcid, GetScid, KeyPhaseBit, LongHeaderBuilder,
-        OneRttHeader, Packet, PacketNumber, PacketReader, PacketWriter, SpinBit,
-        keys::{ArcOneRttKeys, ArcOneRttPacketKeys, DirectionalKeys, Keys},
-        long,
-    },
-};
-use rustls::{Side, quic::HeaderProtectionKey};
-use serde::{Deserialize, Serialize};
-use serde_json::{Map, Value, json};
-
-mod keys;
-mod rx;
-
-const DATAGRAM: usize = 1200;
-/// RFC 9001 Appendix A original DCID; Initial keys stay derived from the first DCID for the
-/// whole connection whatever CIDs later Initial packets carry.
-const ORIGIN_DCID: [u8; 8] = [0x83, 0x94, 0xc8, 0xf0, 0x3e, 0x51, 0x57, 0x08];
-
-// ------------------------------------------------------------------------------------------
-// alphabet
-// ------------------------------------------------------------------------------------------
-
-#[derive(Debug, Clone, Copy, PartialEq, Eq, Hash, PartialOrd, Ord, Serialize, Deserialize)]
-enum PType {
-    Initial { token: usize },
-    ZeroRtt,
-    Handshake,
-    OneRtt,
-}
-
-impl PType {
-    fn is_long(self) -> bool {
-        !matches!(self, PType::OneRtt)
-    }
-    fn name(self) -> String {
-        match self {
-            PType::Initial { token } => format!("initial(token {token})"),
-            PType::ZeroRtt => "0rtt".into(),
-            PType::Handshake => "handshake".into(),
-            PType::OneRtt => "1rtt".into(),
-        }
-    }
-}
-
-#[derive(Debug, Clone, Copy, PartialEq, Eq, Hash, Serialize, Deserialize)]
-enum Dir {
-    C2S,
-    S2C,
-}
-
-#[derive(Debug, Clone, Copy, PartialEq, Eq, Hash, Serialize, Deserialize)]
-enum Body {
-    /// one PING, then padded like `PadTo20`: payload (pn + body) + tag = 20 bytes
-    Min,
-    MinPlus1,
-    Len(usize),
-    /// fill the 1200-byte datagram
-    Full,
-}
-
-/// `la = Some(x)`: encoded by the real `PacketNumber::encode(pn, x)` (never yields 1 byte:
-/// the code enforces a 16-bit minimum); `forced_len = Some(n)`: the n-byte truncation is
-/// constructed directly (legal through `PacketWriter::new_*`, which takes the encoded pn).
-#[derive(Debug, Clone, Copy, PartialEq, Eq, Hash, Serialize, Deserialize)]
-struct Pn {
-    pn: u64,
-    la: Option<u64>,
-    forced_len: Option<u8>,
-    /// receiver's next expected pn (largest received + 1, `RcvdJournal::decode_pn`)
-    expected: u64,
-}
-
-impl Pn {
-    fn encoded(&self) -> PacketNumber {
-        match (self.forced_len, self.la) {
-            (Some(1), _) => PacketNumber::U8(self.pn as u8),
-            (Some(2), _) => PacketNumber::U16(self.pn as u16),
-            (Some(3), _) => PacketNumber::U24((self.pn & 0xff_ffff) as u32),
-            (Some(_), _) => PacketNumber::U32(self.pn as u32),
-            (None, Some(la)) => PacketNumber::encode(self.pn, la),
-            (None, None) => PacketNumber::encode(self.pn, 0),
-        }
-    }
-}
-
-const P1: Pn = Pn { pn: 0xa7, la: None, forced_len: Some(1), expected: 0xa0 };
-const P2_FIRST: Pn = Pn { pn: 0, la: Some(0), forced_len: None, expected: 0 };
-const P2: Pn = Pn { pn: 0x12_3456, la: Some(0x12_3400), forced_len: None, expected: 0x12_3401 };
-const P3: Pn =
-    Pn { pn: 0xabcd_ef12, la: Some(0xabcd_ef12 - 40_000), forced_len: None, expected: 0xabcd_ef12 - 39_999 };
-const P4: Pn = Pn {
-    pn: 0x1_2345_6789,
-    la: Some(0x1_2345_6789 - (1 << 23)),
-    forced_len: None,
-    expected: 0x1_2345_6789 - (1 << 23) + 1,
-};
-const P2_MAX: Pn =
-    Pn { pn: (1 << 62) - 1, la: Some((1 << 62) - 2), forced_len: None, expected: (1 << 62) - 1 };
-const P4_MAXGAP: Pn = Pn {
-    pn: (1 << 40) + (1 << 31) - 1,
-    la: Some(1 << 40),
-    forced_len: None,
-    expected: (1 << 40) + 1,
-};
-
-/// Operations on the two endpoints' `ArcOneRttKeys` before the packet under test is sent.
-/// S = the sender of the packet under test, R = its receiver.
-#[derive(Debug, Clone, Copy, PartialEq, Eq, Hash, Serialize, Deserialize)]
-enum KeyOp {
-    /// `OneRttPacketKeys::update()` (locally initiated key update)
-    UpdS,
-    UpdR,
-    /// a 1-RTT packet S→R / R→S that must be accepted (propagates the key phase)
-    XchgSR,
-    XchgRS,
-    /// `OneRttPacketKeys::phase_out()`
-    PhaseOutS,
-    PhaseOutR,
-}
-
-fn scenario_ops(name: &str) -> Option<Vec<KeyOp>> {
-    use KeyOp::*;
-    Some(match name {
-        "k0" => vec![],
-        "snd-upd1" => vec![UpdS],
-        "rcv-upd1" => vec![UpdR],
-        "rcv-upd1-followed" => vec![UpdR, XchgRS],
-        "both-upd1" => vec![UpdS, UpdR],
-        "snd-upd2" => vec![UpdS, XchgSR, PhaseOutR, XchgRS, PhaseOutS, UpdS],
-        "rcv-upd2" => vec![UpdR, XchgRS, PhaseOutS, XchgSR, PhaseOutR, UpdR, XchgRS],
-        // what the tree does today: nobody calls phase_out (see `phase_out_callers`)
-        "snd-upd2-no-phase-out" => vec![UpdS, XchgSR, XchgRS, UpdS],
-        _ => return None,
-    })
-}
-
-#[derive(Debug, Clone, PartialEq, Eq, Hash, Serialize, Deserialize)]
-struct Case {
-    suite: String,
-    dir: Dir,
-    ptype: PType,
-    cid_len: usize,
-    body: Body,
-    pn: Pn,
-    spin: bool,
-    /// 1-RTT key scenario (see [`scenario_ops`]); "k0" for long headers
-    scenario: String,
-}
-
-#[derive(Debug, Clone, PartialEq, Eq, Hash, Serialize, Deserialize)]
-enum Tamper {
-    None,
-    /// bit i = byte i/8, mask 1 << (i % 8)
-    Flip { bits: Vec<usize> },
-    WrongPn { expected: u64 },
-    WrongKey { kind: String },
-}
-
-// ------------------------------------------------------------------------------------------
-// endpoints
-// ------------------------------------------------------------------------------------------
-
-struct Endpoint {
-    side: Side,
-    cid: ConnectionId,
-    initial: Keys,
-    handshake: Keys,
-    /// client: encrypt keys, server: decrypt keys (`ArcZeroRttKeys` is role-gated the same way)
-    zero_rtt: Option<DirectionalKeys>,
-    one_rtt: ArcOneRttKeys,
-}
-
-/// The keys a receive attempt uses, per packet type (normally the receiver's remote keys).
-#[derive(Clone)]
-struct KeyView {
-    cid: ConnectionId,
-    initial: DirectionalKeys,
-    handshake: DirectionalKeys,
-    zero_rtt: Option<DirectionalKeys>,
-    one_rtt_hp: std::sync::Arc<dyn HeaderProtectionKey>,
-    one_rtt_pk: ArcOneRttPacketKeys,
-}
-
-impl Endpoint {
-    fn view(&self) -> KeyView {
-        let (hp, pk) = self.one_rtt.remote_keys().expect("1-RTT keys installed");
-        KeyView {
-            cid: self.cid,
-            initial: self.initial.remote.clone(),
-            handshake: self.handshake.remote.clone(),
-            zero_rtt: match self.side {
-                Side::Server => self.zero_rtt.clone(),
-                Side::Client => None,
-            },
-            one_rtt_hp: hp,
-            one_rtt_pk: pk,
-        }
-    }
-    fn phase(&self) -> KeyPhaseBit {
-        let (_, pk) = self.one_rtt.remote_keys().expect("1-RTT keys installed");
-        let phase = pk.lock_guard().get_local().0;
-        phase
-    }
-    fn pk(&self) -> ArcOneRttPacketKeys {
-        self.one_rtt.remote_keys().expect("1-RTT keys installed").1
-    }
-}
-
-struct Ctx {
-    client: Endpoint,
-    server: Endpoint,
-    negotiated: String,
-}
-
-fn cid_of(side: Side, len: usize) -> ConnectionId {
-    let base: u8 = match side {
-        Side::Client => 0x51,
-        Side::Server => 0xa3,
-    };
-    let v: Vec<u8> = (0..len).map(|i| base.wrapping_add(i as u8 * 7)).collect();
-    ConnectionId::from_slice(&v)
-}
-
-impl Ctx {
-    fn new(suite: &str, cid_len: usize) -> Result<Ctx, String> {
-        let cs = keys::suite_by_name(suite).ok_or_else(|| format!("unknown suite {suite}"))?;
-        let mut hs = keys::handshake(cs, true)?;
-        let (zc, zs) = match hs.zero_rtt.take() {
-            Some((c, s)) => (Some(c), Some(s)),
-            None => (None, None),
-        };
-        let client = Endpoint {
-            side: Side::Client,
-            cid: cid_of(Side::Client, cid_len),
-            initial: keys::initial_keys(&ORIGIN_DCID, Side::Client),
-            handshake: hs.client.handshake.clone(),
-            zero_rtt: zc,
-            one_rtt: hs.client.install_one_rtt(),
-        };
-        let server = Endpoint {
-            side: Side::Server,
-            cid: cid_of(Side::Server, cid_len),
-            initial: keys::initial_keys(&ORIGIN_DCID, Side::Server),
-            handshake: hs.server.handshake.clone(),
-            zero_rtt: zs,
-            one_rtt: hs.server.install_one_rtt(),
-        };
-        Ok(Ctx { client, server, negotiated: hs.negotiated })
-    }
-    fn ends(&self, dir: Dir) -> (&Endpoint, &Endpoint) {
-        match dir {
-            Dir::C2S => (&self.client, &self.server),
-            Dir::S2C => (&self.server, &self.client),
-        }
-    }
-}
-
-// ------------------------------------------------------------------------------------------
-// send path
-// ------------------------------------------------------------------------------------------
-
-#[derive(Clone)]
-struct Sent {
-    wire: Vec<u8>,
-    ptype: PType,
-    dcid: ConnectionId,
-    scid: ConnectionId,
-    token: Vec<u8>,
-    spin: bool,
-    pn: u64,
-    enc: PacketNumber,
-    key_phase: Option<KeyPhaseBit>,
-    body: Vec<u8>,
-    /// offset of the packet number (= end of header incl. length field)
-    pn_off: usize,
-    /// the first byte before header protection
-    first_plain: u8,
-}
-
-fn pattern(i: usize) -> u8 {
-    ((i * 151 + 17) % 251) as u8 | 0x02
-}
-
-/// PING frame through the real `assemble_packet`, then body bytes / padding through `BufMut`
-/// exactly as the padding packages do, then `encrypt_and_protect_packet`.
-fn fill_and_seal(mut w: PacketWriter<'_>, body: Body, pn_off: usize) -> Result<(usize, Vec<u8>, u8), String> {
-    let pn_len = w.payload_len();
-    w.assemble_packet(&mut PingFrame)
-        .map_err(|s| format!("assemble_packet(PING) refused: {s:?}"))?;
-    let min_body = {
-        // PadTo20: pad until payload_len + tag_len == 20
-        let have = w.payload_len() + w.tag_len();
-        (w.payload_len() - pn_len) + 20usize.saturating_sub(have)
-    };
-    let want = match body {
-        Body::Min => min_body,
-        Body::MinPlus1 => min_body + 1,
-        Body::Len(n) => n.max(min_body),
-        Body::Full => 1 + w.remaining_mut(),
-    };
-    if want - 1 > w.remaining_mut() {
-        return Err(format!("body of {want} bytes does not fit"));
-    }
-    match body {
-        Body::Min => w.put_bytes(0, want - 1),
-        _ => {
-            for i in 1..want {
-                w.put_u8(pattern(i));
-            }
-        }
-    }
-    let end = pn_off + w.payload_len();
-    let plain_body = w.buffer()[pn_off + pn_len..end].to_vec();
-    let (size, info) = w.encrypt_and_protect_packet();
-    if !info.ack_eliciting() {
-        return Err("PacketInfo lost the PING (not ack-eliciting)".into());
-    }
-    Ok((size, plain_body, 0))
-}
-
-#[allow(clippy::too_many_arguments)]
-fn send_into(
-    buf: &mut [u8],
-    snd: &Endpoint,
-    dcid: ConnectionId,
-    ptype: PType,
-    pn: &Pn,
-    body: Body,
-    spin: bool,
-) -> Result<Sent, String> {
-    let scid = snd.cid;
-    let enc = pn.encoded();
-    let mut token = Vec::new();
-    let mut key_phase = None;
-    let (size, plain_body, pn_off, first_plain);
-    match ptype {
-        PType::Initial { token: n } => {
-            token = (0..n).map(|i| 0x70u8.wrapping_add(i as u8)).collect();
-            let header = LongHeaderBuilder::with_cid(dcid, scid).initial(token.clone());
-            pn_off = header.size() + header.length_encoding();
-            let w = PacketWriter::new_long(&header, buf, (pn.pn, enc), snd.initial.local.clone())
-                .map_err(|s| format!("new_long refused: {s:?}"))?;
-            (size, plain_body, _) = fill_and_seal(w, body, pn_off)?;
-            first_plain = 0xc0 | (enc.size() as u8 - 1);
-        }
-        PType::ZeroRtt => {
-            let keys = snd.zero_rtt.clone().ok_or("no 0-RTT keys")?;
-            let header = LongHeaderBuilder::with_cid(dcid, scid).zero_rtt();
-            pn_off = header.size() + header.length_encoding();
-            let w = PacketWriter::new_long(&header, buf, (pn.pn, enc), keys)
-                .map_err(|s| format!("new_long refused: {s:?}"))?;
-            (size, plain_body, _) = fill_and_seal(w, body, pn_off)?;
-            first_plain = 0xd0 | (enc.size() as u8 - 1);
-        }
-        PType::Handshake => {
-            let header = LongHeaderBuilder::with_cid(dcid, scid).handshake();
-            pn_off = header.size() + header.length_encoding();
-            let w =
-                PacketWriter::new_long(&header, buf, (pn.pn, enc), snd.handshake.local.clone())
-                    .map_err(|s| format!("new_long refused: {s:?}"))?;
-            (size, plain_body, _) = fill_and_seal(w, body, pn_off)?;
-            first_plain = 0xe0 | (enc.size() as u8 - 1);
-        }
-        PType::OneRtt => {
-            // DataSpace::new_packet
-            let (hpk, pk) = snd.one_rtt.get_local_keys().ok_or("no 1-RTT keys")?;
-            let (phase, pk) = pk.lock_guard().get_local();
-            let header = OneRttHeader::new(SpinBit::from(spin), dcid);
-            pn_off = header.size();
-            let w = PacketWriter::new_short(
-                &header,
-                buf,
-                (pn.pn, enc),
-                DirectionalKeys { header: hpk, packet: pk },
-                phase,
-            )
-            .map_err(|s| format!("new_short refused: {s:?}"))?;
-            (size, plain_body, _) = fill_and_seal(w, body, pn_off)?;
-            key_phase = Some(phase);
-            first_plain = 0x40
-                | if spin { 0x20 } else { 0 }
-                | if phase == KeyPhaseBit::One { 0x04 } else { 0 }
-                | (enc.size() as u8 - 1);
-        }
-    }
-    Ok(Sent {
-        wire: buf[..size].to_vec(),
-        ptype,
-        dcid,
-        scid,
-        token,
-        spin: spin && ptype == PType::OneRtt,
-        pn: pn.pn,
-        enc,
-        key_phase,
-        body: plain_body,
-        pn_off,
-        first_plain,
-    })
-}
-
-fn send(snd: &Endpoint, rcv: &Endpoint, ptype: PType, pn: &Pn, body: Body, spin: bool) -> Result<Sent, String> {
-    let mut buf = vec![0u8; DATAGRAM];
-    match catch(|| send_into(&mut buf, snd, rcv.cid, ptype, pn, body, spin)) {
-        Ok(r) => r,
-        Err(p) => Err(format!("PANIC {}", p.class())),
-    }
-}
-
-// ------------------------------------------------------------------------------------------
-// receive path
-// ------------------------------------------------------------------------------------------
-
-#[derive(Debug, Clone, Copy, PartialEq, Eq, PartialOrd, Ord)]
-enum Verdict {
-    Dropped,
-    ConnError,
-    Accepted,
-}
-
-impl Verdict {
-    fn name(self) -> &'static str {
-        match self {
-            Verdict::Dropped => "dropped",
-            Verdict::ConnError => "connection-error",
-            Verdict::Accepted => "accepted",
-        }
-    }
-}
-
-#[derive(Debug, Clone, PartialEq, Eq)]
-struct Delivered {
-    ptype: PType,
-    dcid: ConnectionId,
-    scid: ConnectionId,
-    token: Vec<u8>,
-    spin: bool,
-    pn: u64,
-    pn_len: usize,
-    key_phase: Option<KeyPhaseBit>,
-    body: Bytes,
-    first_plain: u8,
-    pn_plain: Vec<u8>,
-}
-
-#[derive(Debug, Clone)]
-struct RxOut {
-    verdict: Verdict,
-    /// "long" / "short": which wrapper produced the verdict; "parse" / "route" / "ignored" else
-    path: &'static str,
-    why: String,
-    delivered: Vec<Delivered>,
-    packets: u32,
-    hp_removals: u32,
-    aead_attempts: u32,
-    /// every `Some(Err(_))` of the datagram (a delivered neighbour must not hide it)
-    conn_errors: Vec<(&'static str, String)>,
-}
-
-fn note(out: &mut RxOut, v: Verdict, path: &'static str, why: String) {
-    if v > out.verdict || out.why.is_empty() {
-        out.verdict = v.max(out.verdict);
-        out.path = path;
-        out.why = why;
-    }
-}
-
-/// One datagram through the receive path with the given keys.
-fn receive_inner(view: &KeyView, dgram: &[u8], expected: u64) -> RxOut {
-    let mut out = RxOut {
-        verdict: Verdict::Dropped,
-        path: "parse",
-        why: String::new(),
-        delivered: vec![],
-        packets: 0,
-        hp_removals: 0,
-        aead_attempts: 0,
-        conn_errors: vec![],
-    };
-    let reader = PacketReader::new(BytesMut::from(dgram), view.cid.len());
-    for item in reader {
-        out.packets += 1;
-        let packet = match item {
-            Ok(p) => p,
-            Err(e) => {
-                note(&mut out, Verdict::Dropped, "parse", format!("PacketReader: {e}"));
-                continue;
-            }
-        };
-        let dp = match packet {
-            Packet::VN(_) | Packet::Retry(_) => {
-                note(&mut out, Verdict::Dropped, "ignored", "VN/Retry: RcvdPacketQueue::deliver ignores it".into());
-                continue;
-            }
-            Packet::Data(dp) => dp,
-        };
-        if *dp.header.dcid() != view.cid {
-            note(&mut out, Verdict::Dropped, "route", "DCID is not this connection's: unrouted".into());
-            continue;
-        }
-        let decoder = |enc: PacketNumber| Ok(enc.decode(expected));
-        let mut stage = rx::Stage::HeaderProtection;
-        let (ptype, scid, token, spin, path, res): (PType, ConnectionId, Vec<u8>, bool, &'static str, _) =
-            match &dp.header {
-                DataHeader::Long(long::DataHeader::Initial(h)) => (
-                    PType::Initial { token: h.token().len() },
-                    *h.scid(),
-                    h.token().clone(),
-                    false,
-                    "long",
-                    rx::decrypt_long_packet(
-                        dp.bytes.clone(),
-                        dp.offset,
-                        view.initial.header.as_ref(),
-                        view.initial.packet.as_ref(),
-                        decoder,
-                        &mut stage,
-                    ),
-                ),
-                DataHeader::Long(long::DataHeader::Handshake(h)) => (
-                    PType::Handshake,
-                    *h.scid(),
-                    vec![],
-                    false,
-                    "long",
-                    rx::decrypt_long_packet(
-                        dp.bytes.clone(),
-                        dp.offset,
-                        view.handshake.header.as_ref(),
-                        view.handshake.packet.as_ref(),
-                        decoder,
-                        &mut stage,
-                    ),
-                ),
-                DataHeader::Long(long::DataHeader::ZeroRtt(h)) => match &view.zero_rtt {
-                    Some(k) => (
-                        PType::ZeroRtt,
-                        *h.scid(),
-                        vec![],
-                        false,
-                        "long",
-                        rx::decrypt_long_packet(
-                            dp.bytes.clone(),
-                            dp.offset,
-                            k.header.as_ref(),
-                            k.packet.as_ref(),
-                            decoder,
-                            &mut stage,
-                        ),
-                    ),
-                    None => {
-                        // DataSpace::decrypt_0rtt_packet: `get_decrypt_keys()?` ⇒ None
-                        note(&mut out, Verdict::Dropped, "ignored", "0-RTT packet at a client: no decrypt keys".into());
-                        continue;
-                    }
-                },
-                DataHeader::Short(h) => (
-                    PType::OneRtt,
-                    ConnectionId::default(),
-                    vec![],
-                    h.spin() == SpinBit::One,
-                    "short",
-                    rx::decrypt_short_packet(
-                        dp.bytes.clone(),
-                        dp.offset,
-                        view.one_rtt_hp.as_ref(),
-                        &view.one_rtt_pk,
-                        decoder,
-                        &mut stage,
-                    ),
-                ),
-            };
-        out.hp_removals += 1;
-        if matches!(stage, rx::Stage::Aead | rx::Stage::Done) {
-            out.aead_attempts += 1;
-        }
-        match res {
-            None => note(&mut out, Verdict::Dropped, path, format!("dropped at {stage:?}")),
-            Some(Err(e)) => {
-                out.conn_errors.push((path, format!("{e}")));
-                note(&mut out, Verdict::ConnError, path, format!("{e}"))
-            }
-            Some(Ok(p)) => {
-                let pn_len = p.undecoded_pn.size();
-                out.delivered.push(Delivered {
-                    ptype,
-                    dcid: *dp.header.dcid(),
-                    scid,
-                    token,
-                    spin,
-                    pn: p.decoded_pn,
-                    pn_len,
-                    key_phase: p.key_phase,
-                    body: p.body(),
-                    first_plain: p.plain[0],
-                    pn_plain: p.plain[p.payload_offset..p.payload_offset + pn_len].to_vec(),
-                });
-                note(&mut out, Verdict::Accepted, path, "accepted".into());
-            }
-        }
-    }
-    out
-}
-
-fn receive(view: &KeyView, dgram: &[u8], expected: u64) -> Result<RxOut, PanicInfo> {
-    catch(|| receive_inner(view, dgram, expected))
-}
-
-fn matches_sent(d: &Delivered, s: &Sent) -> Result<(), (&'static str, String)> {
-    if d.ptype != s.ptype || d.dcid != s.dcid || d.token != s.token || d.spin != s.spin {
-        return Err(("header-mismatch", format!("sent {:?} dcid {:?} token {:?} spin {}; got {:?} dcid {:?} token {:?} spin {}",
-            s.ptype, s.dcid, s.token, s.spin, d.ptype, d.dcid, d.token, d.spin)));
-    }
-    if s.ptype.is_long() && d.scid != s.scid {
-        return Err(("header-mismatch", format!("sent scid {:?}, got {:?}", s.scid, d.scid)));
-    }
-    if d.first_plain != s.first_plain {
-        return Err(("header-mismatch", format!("first byte after unmasking {:#04x}, assembled {:#04x}", d.first_plain, s.first_plain)));
-    }
-    if d.pn != s.pn || d.pn_len != s.enc.size() {
-        return Err(("pn-mismatch", format!("sent pn {} in {} bytes, recovered {} in {} bytes", s.pn, s.enc.size(), d.pn, d.pn_len)));
-    }
-    let mut pn_wire = Vec::new();
-    {
-        use qbase::packet::WritePacketNumber;
-        pn_wire.put_packet_number(s.enc);
-    }
-    if d.pn_plain != pn_wire {
-        return Err(("pn-mismatch", format!("pn bytes after unmasking {:02x?}, assembled {:02x?}", d.pn_plain, pn_wire)));
-    }
-    if d.key_phase != s.key_phase {
-        return Err(("key-phase-mismatch", format!("sent {:?}, recovered {:?}", s.key_phase, d.key_phase)));
-    }
-    if d.body[..] != s.body[..] {
-        return Err(("body-mismatch", format!("sent {} body bytes, recovered {} (equal prefix {})", s.body.len(), d.body.len(),
-            d.body.iter().zip(&s.body).take_while(|(a, b)| a == b).count())));
-    }
-    Ok(())
-}
-
-// ------------------------------------------------------------------------------------------
-// per-case evaluation
-// ------------------------------------------------------------------------------------------
-
-#[derive(Default)]
-struct Found {
-    /// signature -> (detail, replay, hits, rank); rank 0 = the witness does not depend on the
-    /// (per-run random) handshake keys, so its replay reproduces on the first attempt
-    v: BTreeMap<String, (String, Value, u64, u8)>,
-}
-
-impl Found {
-    fn add(&mut self, sig: String, detail: String, replay: impl FnOnce() -> Value) {
-        self.add_ranked(sig, 1, detail, replay)
-    }
-    fn add_ranked(&mut self, sig: String, rank: u8, detail: String, replay: impl FnOnce() -> Value) {
-        match self.v.get_mut(&sig) {
-            Some(e) => {
-                e.2 += 1;
-                if rank < e.3 {
-                    e.0 = detail;
-                    e.1 = replay();
-                    e.3 = rank;
-                }
-            }
-            None => {
-                self.v.insert(sig, (detail, replay(), 1, rank));
-            }
-        }
-    }
-    fn merge(&mut self, other: Found) {
-        for (sig, (detail, replay, hits, rank)) in other.v {
-            match self.v.get_mut(&sig) {
-                Some(e) => {
-                    e.2 += hits;
-                    if rank < e.3 {
-                        e.0 = detail;
-                        e.1 = replay;
-                        e.3 = rank;
-                    }
-                }
-                None => {
-                    self.v.insert(sig, (detail, replay, hits, rank));
-                }
-            }
-        }
-    }
-}
-
-#[derive(Default)]
-struct Counts {
-    cases: u64,
-    roundtrip_ok: u64,
-    receive_attempts: u64,
-    hp_removals: u64,
-    aead_attempts: u64,
-    distinct: u64,
-    unauth_key_updates: u64,
-    rebuilds: u64,
-    same_pn_skipped: u64,
-    /// "<clause>: <region> -> <outcome>"
-    hist: BTreeMap<String, u64>,
-}
-
-impl Counts {
-    fn merge(&mut self, o: &Counts) {
-        self.cases += o.cases;
-        self.roundtrip_ok += o.roundtrip_ok;
-        self.receive_attempts += o.receive_attempts;
-        self.hp_removals += o.hp_removals;
-        self.aead_attempts += o.aead_attempts;
-        self.distinct += o.distinct;
-        self.unauth_key_updates += o.unauth_key_updates;
-        self.rebuilds += o.rebuilds;
-        self.same_pn_skipped += o.same_pn_skipped;
-        for (k, v) in &o.hist {
-            *self.hist.entry(k.clone()).or_default() += v;
-        }
-    }
-    fn rx(&mut self, o: &RxOut) {
-        self.receive_attempts += 1;
-        self.hp_removals += o.hp_removals as u64;
-        self.aead_attempts += o.aead_attempts as u64;
-    }
-}
-
-#[derive(Default)]
-struct CaseResult {
-    found: Found,
-    /// per sub-check: roundtrip, bitflip, wrong-pn, wrong-key, key-update
-    counts: BTreeMap<&'static str, Counts>,
-    sample: Option<Value>,
-}
-
-impl CaseResult {
-    fn c(&mut self, sub: &'static str) -> &mut Counts {
-        self.counts.entry(sub).or_default()
-    }
-}
-
-fn region(s: &Sent, bit: usize) -> String {
-    let byte = bit / 8;
-    let mask = 1u8 << (bit % 8);
-    let long = s.ptype.is_long();
-    if byte == 0 {
-        let n = match (long, mask) {
-            (_, 0x80) => "form",
-            (_, 0x40) => "fixed",
-            (true, 0x20 | 0x10) => "type",
-            (true, 0x08 | 0x04) => "reserved",
-            (false, 0x20) => "spin",
-            (false, 0x10 | 0x08) => "reserved",
-            (false, 0x04) => "key-phase",
-            _ => "pn-len",
-        };
-        return format!("byte0.{n}");
-    }
-    let pn_len = s.enc.size();
-    if byte >= s.pn_off {
-        let rel = byte - s.pn_off;
-        let base = if rel < pn_len {
-            "pn"
-        } else if byte >= s.wire.len() - 16 {
-            "tag"
-        } else {
-            "body"
-        };
-        return if (4..20).contains(&rel) { format!("{base}+hp-sample") } else { base.to_string() };
-    }
-    if !long {
-        return "dcid".into();
-    }
-    let dl = s.dcid.len();
-    let sl = s.scid.len();
-    let mut o = 1;
-    for (name, len) in [("version", 4), ("dcid-len", 1), ("dcid", dl), ("scid-len", 1), ("scid", sl)] {
-        if byte < o + len {
-            return name.into();
-        }
-        o += len;
-    }
-    if let PType::Initial { token } = s.ptype {
-        let tl = if token < 64 { 1 } else { 2 };
-        if byte < o + tl {
-            return "token-len".into();
-        }
-        o += tl;
-        if byte < o + token {
-            return "token".into();
-        }
-    }
-    "length".into()
-}
-
-struct Live {
-    ctx: Ctx,
-    sent: Sent,
-}
-
-fn apply_ops(ctx: &Ctx, case: &Case) -> Result<(), String> {
-    let mut probe_pn: u64 = 1;
-    let ops = scenario_ops(&case.scenario).ok_or_else(|| format!("unknown scenario {}", case.scenario))?;
-    for (i, op) in ops.iter().enumerate() {
-        let (s, r) = ctx.ends(case.dir);
-        match op {
-            KeyOp::UpdS => catch(|| s.pk().lock_guard().update()).map_err(|p| format!("PANIC {}", p.class()))?,
-            KeyOp::UpdR => catch(|| r.pk().lock_guard().update()).map_err(|p| format!("PANIC {}", p.class()))?,
-            KeyOp::PhaseOutS => catch(|| s.pk().lock_guard().phase_out()).map_err(|p| format!("PANIC {}", p.class()))?,
-            KeyOp::PhaseOutR => catch(|| r.pk().lock_guard().phase_out()).map_err(|p| format!("PANIC {}", p.class()))?,
-            KeyOp::XchgSR | KeyOp::XchgRS => {
-                let (from, to) = if *op == KeyOp::XchgSR { (s, r) } else { (r, s) };
-                let pn = Pn { pn: probe_pn, la: Some(probe_pn - 1), forced_len: None, expected: probe_pn };
-                let sent = send(from, to, PType::OneRtt, &pn, Body::Min, false)?;
-                let out = receive(&to.view(), &sent.wire, pn.expected).map_err(|p| format!("PANIC {}", p.class()))?;
-                let ok = out.verdict == Verdict::Accepted
-                    && out.delivered.len() == 1
-                    && matches_sent(&out.delivered[0], &sent).is_ok();
-                if !ok {
-                    return Err(format!("step {i} ({op:?}): exchange packet {} ({})", out.verdict.name(), out.why));
-                }
-                probe_pn += 1;
-            }
-        }
-    }
-    Ok(())
-}
-
-fn build(case: &Case) -> Result<Live, (String, String)> {
-    let ctx = Ctx::new(&case.suite, case.cid_len).map_err(|e| ("machinery".to_string(), e))?;
-    apply_ops(&ctx, case).map_err(|e| (format!("keyupdate/{}/setup-failed", case.scenario), e))?;
-    let (s, r) = ctx.ends(case.dir);
-    let sent = send(s, r, case.ptype, &case.pn, case.body, case.spin)
-        .map_err(|e| ("roundtrip/send-failed".to_string(), e))?;
-    Ok(Live { ctx, sent })
-}
-
-fn path_of(case: &Case, out: &RxOut) -> &'static str {
-    match out.path {
-        "long" | "short" => out.path,
-        _ => {
-            if case.ptype.is_long() {
-                "long"
-            } else {
-                "short"
-            }
-        }
-    }
-}
-
-/// Oracle A. `Ok(())` iff exactly the assembled packet came out.
-fn check_roundtrip(case: &Case, live: &Live) -> Result<RxOut, (String, String)> {
-    let (_, r) = live.ctx.ends(case.dir);
-    let out = match receive(&r.view(), &live.sent.wire, case.pn.expected) {
-        Ok(o) => o,
-        Err(p) => return Err((format!("panic/{}", p.class()), format!("receive path panicked on an untouched packet: {} at {}", p.message, p.location))),
-    };
-    let kind = if case.ptype.is_long() { "long" } else { "short" };
-    let scen = if case.scenario == "k0" { String::new() } else { format!("/{}", case.scenario) };
-    if out.verdict != Verdict::Accepted {
-        return Err((
-            format!("roundtrip/not-accepted/{kind}{scen}"),
-            format!("untouched {} packet was {}: {}", case.ptype.name(), out.verdict.name(), out.why),
-        ));
-    }
-    if out.delivered.len() != 1 || out.packets != 1 {
-        return Err((format!("roundtrip/packet-count/{kind}"), format!("{} packets parsed, {} delivered", out.packets, out.delivered.len())));
-    }
-    if let Err((what, detail)) = matches_sent(&out.delivered[0], &live.sent) {
-        return Err((format!("roundtrip/{what}/{kind}{scen}"), detail));
-    }
-    Ok(out)
-}
-
-fn replay_json(sub: &str, case: &Case, tamper: &Tamper) -> Value {
-    json!({"sub": sub, "case": case, "tamper": tamper})
-}
-
-/// Evaluates one tamper on a live context. Returns the outcome and whether the receiver's
-/// 1-RTT key state changed.
-fn eval_tamper(case: &Case, live: &Live, tamper: &Tamper) -> Result<(RxOut, bool), PanicInfo> {
-    let (s, r) = live.ctx.ends(case.dir);
-    let before = r.phase();
-    let out = match tamper {
-        Tamper::None => receive(&r.view(), &live.sent.wire, case.pn.expected)?,
-        Tamper::Flip { bits } => {
-            let mut d = live.sent.wire.clone();
-            for b in bits {
-                d[b / 8] ^= 1 << (b % 8);
-            }
-            receive(&r.view(), &d, case.pn.expected)?
-        }
-        Tamper::WrongPn { expected } => receive(&r.view(), &live.sent.wire, *expected)?,
-        Tamper::WrongKey { kind } => {
-            let own = r.view();
-            let view = match kind.as_str() {
-                // the keys of the opposite direction (what the sender itself decrypts with)
-                "other-direction" => {
-                    let mut v = s.view();
-                    v.cid = own.cid;
-                    if v.zero_rtt.is_none() {
-                        v.zero_rtt = Some(s.handshake.remote.clone());
-                    }
-                    v
-                }
-                // every space holds another epoch's keys
-                "other-epoch" => KeyView {
-                    cid: own.cid,
-                    initial: own.handshake.clone(),
-                    handshake: own.initial.clone(),
-                    zero_rtt: Some(own.initial.clone()),
-                    one_rtt_hp: own.handshake.header.clone(),
-                    one_rtt_pk: own.one_rtt_pk.clone(),
-                },
-                // right header-protection key, wrong packet key: reaches the AEAD
-                "right-hp-wrong-pk" => {
-                    let other = Ctx::new(&case.suite, case.cid_len).map_err(|e| PanicInfo { message: e, location: "harness".into() })?;
-                    let (_, or) = other.ends(case.dir);
-                    let ov = or.view();
-                    KeyView {
-                        cid: own.cid,
-                        initial: DirectionalKeys { header: own.initial.header.clone(), packet: own.handshake.packet.clone() },
-                        handshake: DirectionalKeys { header: own.handshake.header.clone(), packet: own.initial.packet.clone() },
-                        zero_rtt: own.zero_rtt.as_ref().map(|z| DirectionalKeys { header: z.header.clone(), packet: own.handshake.packet.clone() }),
-                        one_rtt_hp: own.one_rtt_hp.clone(),
-                        one_rtt_pk: ov.one_rtt_pk,
-                    }
-                }
-                // the keys of another connection (fresh handshake, other original DCID)
-                "other-connection" => {
-                    let other = Ctx::new(&case.suite, case.cid_len).map_err(|e| PanicInfo { message: e, location: "harness".into() })?;
-                    let (_, or) = other.ends(case.dir);
-                    let mut v = or.view();
-                    let alt = keys::initial_keys(&[0x11, 0x22, 0x33, 0x44, 0x55, 0x66, 0x77, 0x88], or.side);
-                    v.initial = alt.remote;
-                    v.cid = own.cid;
-                    v
-                }
-                // 1-RTT: the receiver is two generations ahead on the same key-phase bit
-                "two-generations-ahead" => {
-                    let pk = r.pk();
-                    catch(|| {
-                        pk.lock_guard().update();
-                        pk.lock_guard().phase_out();
-                        pk.lock_guard().update();
-                    })?;
-                    own
-                }
-                other => {
-                    return Err(PanicInfo { message: format!("unknown wrong-key kind {other}"), location: "harness".into() });
-                }
-            };
-            receive(&view, &live.sent.wire, case.pn.expected)?
-        }
-    };
-    // wrong-key views may touch either endpoint's 1-RTT key state: always start afresh after them
-    let changed = r.phase() != before || matches!(tamper, Tamper::WrongKey { .. });
-    Ok((out, changed))
-}
-
-/// Judges a tampered presentation. `Some((signature, detail))` on violation.
-fn judge(case: &Case, clause: &str, tamper: &Tamper, live: &Live, out: &RxOut) -> Option<(String, String)> {
-    let path = path_of(case, out);
-    let what = match tamper {
-        Tamper::Flip { bits } => format!(
-            "bit(s) {:?} flipped ({})",
-            bits,
-            bits.iter().map(|b| region(&live.sent, *b)).collect::<Vec<_>>().join(", ")
-        ),
-        Tamper::WrongPn { expected } => format!("receiver expecting pn {expected} instead of {}", case.pn.expected),
-        Tamper::WrongKey { kind } => format!("receiver holding wrong keys ({kind})"),
-        Tamper::None => "untouched".into(),
-    };
-    match out.verdict {
-        Verdict::Dropped => None,
-        Verdict::Accepted => Some((
-            format!("{clause}/accepted/{path}"),
-            format!("{} packet ({} bytes) with {what} was ACCEPTED: {} packet(s) delivered", case.ptype.name(), live.sent.wire.len(), out.delivered.len()),
-        )),
-        Verdict::ConnError => Some((
-            format!("{clause}/connection-error-before-aead/{path}"),
-            format!(
-                "{} packet ({} bytes) with {what}: wrapper returned Some(Err(\"{}\")) — the caller closes the connection on an unauthenticated packet; must be a silent drop",
-                case.ptype.name(), live.sent.wire.len(), out.why
-            ),
-        )),
-    }
-}
-
-/// The packet number as the receiver sees it: parsed back from its wire bytes (`encode` leaves
-/// bits above the 24th set inside `U24`; only the wire form is meaningful to `decode`).
-fn on_wire(enc: PacketNumber) -> PacketNumber {
-    use qbase::packet::WritePacketNumber;
-    let mut b: Vec<u8> = Vec::new();
-    b.put_packet_number(enc);
-    qbase::packet::take_pn_len(enc.size() as u8)(&b).map(|(_, p)| p).unwrap_or(enc)
-}
-
-fn wrong_key_kinds(case: &Case) -> Vec<&'static str> {
-    let mut v = vec!["other-direction", "other-epoch", "right-hp-wrong-pk", "other-connection"];
-    if case.ptype == PType::OneRtt {
-        v.push("two-generations-ahead");
-    }
-    v
-}
-
-fn wrong_pn_candidates(case: &Case, enc: PacketNumber) -> Vec<u64> {
-    let win = 1u64 << (8 * enc.size());
-    let e = case.pn.expected;
-    let mut v = vec![e + win, e + 2 * win, e + win / 2 + 1, e + win - 1, e.wrapping_sub(win), e.wrapping_sub(win / 2 + 1), 0, win, (1 << 62) - 1];
-    v.retain(|x| *x < (1 << 62));
-    v.sort();
-    v.dedup();
-    v
-}
-
-#[derive(Clone, Copy, PartialEq, Eq)]
-enum Mode {
-    Normal,
-    TwoBitOnly,
-}
-
-fn run_case(case: &Case, mode: Mode) -> CaseResult {
-    let mut res = CaseResult::default();
-    let sub_rt: &'static str = if case.scenario == "k0" { "roundtrip" } else { "key-update" };
-    res.c(sub_rt).cases += 1;
-    let mut live = match build(case) {
-        Ok(l) => l,
-        Err((sig, detail)) => {
-            res.found.add(sig, format!("{detail} [{}]", case.ptype.name()), || replay_json(sub_rt, case, &Tamper::None));
-            return res;
-        }
-    };
-    // ---- oracle A
-    let rt = check_roundtrip(case, &live);
-    res.c(sub_rt).receive_attempts += 1;
-    match rt {
-        Ok(out) => {
-            let c = res.c(sub_rt);
-            c.hp_removals += out.hp_removals as u64;
-            c.aead_attempts += out.aead_attempts as u64;
-            c.roundtrip_ok += 1;
-            c.distinct += 1;
-            *c.hist.entry(format!("{} pn_len {} -> accepted", case.ptype.name(), live.sent.enc.size())).or_default() += 1;
-        }
-        Err((sig, detail)) => {
-            *res.c(sub_rt).hist.entry(format!("{} -> FAILED", case.ptype.name())).or_default() += 1;
-            res.found.add(sig, detail, || replay_json(sub_rt, case, &Tamper::None));
-            return res; // tamper cases need a packet that round-trips
-        }
-    }
-    res.sample = Some(json!({
-        "case": case,
-        "negotiated": live.ctx.negotiated,
-        "wire_len": live.sent.wire.len(),
-        "pn_len": live.sent.enc.size(),
-        "body_len": live.sent.body.len(),
-        "wire_head": hex(&live.sent.wire[..live.sent.wire.len().min(48)]),
-    }));
-
-    // ---- oracle B
-    let mut tampers: Vec<(&'static str, &'static str, Tamper)> = Vec::new();
-    let nbits = live.sent.wire.len() * 8;
-    if mode == Mode::TwoBitOnly {
-        for a in 0..nbits {
-            for b in a + 1..nbits {
-                tampers.push(("bitflip2", "tamper", Tamper::Flip { bits: vec![a, b] }));
-            }
-        }
-    } else {
-        for b in 0..nbits {
-            tampers.push(("bitflip", "tamper", Tamper::Flip { bits: vec![b] }));
-        }
-        for e in wrong_pn_candidates(case, live.sent.enc) {
-            if on_wire(live.sent.enc).decode(e) == case.pn.pn {
-                res.c("wrong-pn").same_pn_skipped += 1;
-                continue;
-            }
-            tampers.push(("wrong-pn", "wrongpn", Tamper::WrongPn { expected: e }));
-        }
-        for k in wrong_key_kinds(case) {
-            tampers.push(("wrong-key", "wrongkey", Tamper::WrongKey { kind: k.to_string() }));
-        }
-    }
-
-    let mut seen: HashSet<(&'static str, Vec<usize>, u64, String)> = HashSet::new();
-    for (sub, clause, t) in tampers {
-        let key = match &t {
-            Tamper::Flip { bits } => (sub, bits.clone(), 0, String::new()),
-            Tamper::WrongPn { expected } => (sub, vec![], *expected, String::new()),
-            Tamper::WrongKey { kind } => (sub, vec![], 0, kind.clone()),
-            Tamper::None => (sub, vec![], 0, String::new()),
-        };
-        if seen.insert(key) {
-            res.c(sub).distinct += 1;
-        }
-        let (out, changed) = match eval_tamper(case, &live, &t) {
-            Ok(x) => x,
-            Err(p) if p.location == "harness" => {
-                res.found.add("machinery".into(), p.message.clone(), || replay_json(sub, case, &t));
-                continue;
-            }
-            Err(p) => {
-                res.c(sub).receive_attempts += 1;
-                let what = match &t {
-                    Tamper::Flip { bits } => bits.iter().map(|b| region(&live.sent, *b)).collect::<Vec<_>>().join(","),
-                    _ => "keys".into(),
-                };
-                *res.c(sub).hist.entry(format!("{what} -> PANIC")).or_default() += 1;
-                res.found.add(
-                    format!("panic/{}", p.class()),
-                    format!("receive path panicked on a {} packet with {:?} ({what}): {} at {}", case.ptype.name(), t, p.message, p.location),
-                    || replay_json(sub, case, &t),
-                );
-                continue;
-            }
-        };
-        res.c(sub).rx(&out);
-        let label = match &t {
-            Tamper::Flip { bits } if bits.len() == 1 => region(&live.sent, bits[0]),
-            Tamper::Flip { .. } => "two bits".into(),
-            Tamper::WrongPn { .. } => "wrong expected pn".into(),
-            Tamper::WrongKey { kind } => kind.clone(),
-            Tamper::None => "none".into(),
-        };
-        let long_short = if case.ptype.is_long() { "long" } else { "short" };
-        *res.c(sub).hist.entry(format!("{long_short} {label} -> {}", out.verdict.name())).or_default() += 1;
-        if let Some((sig, detail)) = judge(case, clause, &t, &live, &out) {
-            // a flipped reserved bit of the packet's own first byte is reserved after unmasking
-            // whatever the keys are
-            let key_independent = matches!(&t, Tamper::Flip { bits } if bits.len() == 1 && label == "byte0.reserved")
-                && out.path == long_short;
-            res.found.add_ranked(sig, if key_independent { 0 } else { 1 }, detail, || replay_json(sub, case, &t));
-        }
-        if changed {
-            // the receiver's 1-RTT key state moved because of a packet it did not authenticate:
-            // the genuine packet must still be deliverable, then start again from a clean state
-            if !matches!(t, Tamper::WrongKey { .. }) {
-                res.c(sub).unauth_key_updates += 1;
-                if out.verdict == Verdict::Dropped {
-                    let again = check_roundtrip(case, &live);
-                    res.c(sub).receive_attempts += 1;
-                    if let Err((sig, detail)) = again {
-                        res.found.add(
-                            format!("tamper/receiver-state-corrupted/{}", sig.replace('/', ".")),
-                            format!("after dropping a packet with {t:?} the receiver performed a key update and the genuine packet is no longer delivered: {detail}"),
-                            || replay_json(sub, case, &t),
-                        );
-                    }
-                }
-            }
-            res.c(sub).rebuilds += 1;
-            match build(case).and_then(|l| check_roundtrip(case, &l).map(|_| l)) {
-                Ok(l) => live = l,
-                Err((sig, detail)) => {
-                    res.found.add(format!("{sig}/on-rebuild"), detail, || replay_json(sub, case, &Tamper::None));
-                    return res;
-                }
-            }
-        }
-    }
-    res
-}
-
-fn hex(b: &[u8]) -> String {
-    b.iter().map(|x| format!("{x:02x}")).collect()
-}
-
-// ------------------------------------------------------------------------------------------
-// coalesced datagram
-// ------------------------------------------------------------------------------------------
-
-#[derive(Debug, Clone, Serialize, Deserialize)]
-struct CoalescedCase {
-    suite: String,
-    cid_len: usize,
-    dir: Dir,
-}
-
-/// Initial + Handshake + 1-RTT in one datagram, assembled back to back in one buffer as the
-/// transmit path does.
-fn build_coalesced(c: &CoalescedCase) -> Result<(Ctx, Vec<Sent>, Vec<u8>), String> {
-    let ctx = Ctx::new(&c.suite, c.cid_len)?;
-    let (s, r) = ctx.ends(c.dir);
-    let mut buf = vec![0u8; DATAGRAM];
-    let mut off = 0;
-    let mut sents = Vec::new();
-    for (ptype, body) in [
-        (PType::Initial { token: 0 }, Body::Len(60)),
-        (PType::Handshake, Body::Len(41)),
-        (PType::OneRtt, Body::Len(77)),
-    ] {
-        let pn = P2;
-        let sent = match catch(|| send_into(&mut buf[off..], s, r.cid, ptype, &pn, body, true)) {
-            Ok(x) => x?,
-            Err(p) => return Err(format!("PANIC {}", p.class())),
-        };
-        off += sent.wire.len();
-        sents.push(sent);
-    }
-    buf.truncate(off);
-    Ok((ctx, sents, buf))
-}
-
-fn run_coalesced(c: &CoalescedCase, only_bits: Option<Vec<usize>>) -> CaseResult {
-    let mut res = CaseResult::default();
-    let sub = "coalesced";
-    res.c(sub).cases += 1;
-    let rj = |bit: Option<usize>| json!({"sub": "coalesced", "case": c, "bit": bit});
-    let mk = || build_coalesced(c);
-    let (mut ctx, mut sents, mut dgram) = match mk() {
-        Ok(x) => x,
-        Err(e) => {
-            res.found.add("roundtrip/send-failed/coalesced".into(), e, || rj(None));
-            return res;
-        }
-    };
-    let expected = P2.expected;
-    let verify = |ctx: &Ctx, sents: &[Sent], dgram: &[u8]| -> Result<RxOut, (String, String)> {
-        let (_, r) = ctx.ends(c.dir);
-        let out = receive(&r.view(), dgram, expected).map_err(|p| (format!("panic/{}", p.class()), p.message.clone()))?;
-        if out.delivered.len() != sents.len() {
-            return Err(("roundtrip/not-accepted/coalesced".into(), format!("{} of {} coalesced packets delivered ({}: {})", out.delivered.len(), sents.len(), out.verdict.name(), out.why)));
-        }
-        for (d, s) in out.delivered.iter().zip(sents) {
-            matches_sent(d, s).map_err(|(w, det)| (format!("roundtrip/{w}/coalesced"), det))?;
-        }
-        Ok(out)
-    };
-    match verify(&ctx, &sents, &dgram) {
-        Ok(out) => {
-            let cc = res.c(sub);
-            cc.rx(&out);
-            cc.roundtrip_ok += 1;
-        }
-        Err((sig, det)) => {
-            res.found.add(sig, det, || rj(None));
-            return res;
-        }
-    }
-    res.sample = Some(json!({"case": c, "datagram_len": dgram.len(), "packets": sents.iter().map(|s| json!({"type": s.ptype.name(), "len": s.wire.len()})).collect::<Vec<_>>()}));
-    let bits: Vec<usize> = match only_bits {
-        Some(b) => b.into_iter().filter(|b| *b < dgram.len() * 8).collect(),
-        None => (0..dgram.len() * 8).collect(),
-    };
-    for bit in bits {
-        res.c(sub).distinct += 1;
-        let mut d = dgram.clone();
-        d[bit / 8] ^= 1 << (bit % 8);
-        // which packet owns the bit
-        let mut start = 0;
-        let mut owner = 0;
-        for (i, s) in sents.iter().enumerate() {
-            if bit / 8 < start + s.wire.len() {
-                owner = i;
-                break;
-            }
-            start += s.wire.len();
-        }
-        let (_, r) = ctx.ends(c.dir);
-        let before = r.phase();
-        let out = match receive(&r.view(), &d, expected) {
-            Ok(o) => o,
-            Err(p) => {
-                res.c(sub).receive_attempts += 1;
-                *res.c(sub).hist.entry(format!("packet {owner} -> PANIC")).or_default() += 1;
-                res.found.add(format!("panic/{}", p.class()), format!("coalesced datagram, bit {bit} (packet {owner}, {}): {} at {}", region_in(&sents, bit), p.message, p.location), || rj(Some(bit)));
-                continue;
-            }
-        };
-        res.c(sub).rx(&out);
-        let conn_err = !out.conn_errors.is_empty();
-        // delivered packets must be untouched originals other than the owner
-        let mut bad = None;
-        for dl in &out.delivered {
-            let hit = sents.iter().position(|s| matches_sent(dl, s).is_ok());
-            match hit {
-                Some(i) if i != owner => {}
-                _ => bad = Some(dl.clone()),
-            }
-        }
-        let outcome = if bad.is_some() { "tampered-accepted" } else if conn_err { "connection-error" } else { "discarded" };
-        *res.c(sub).hist.entry(format!("packet {owner} {} -> {outcome}; {} others delivered", sents[owner].ptype.name(), out.delivered.len())).or_default() += 1;
-        if let Some(b) = bad {
-            res.found.add("tamper/accepted/coalesced".into(), format!("bit {bit} of packet {owner} flipped; delivered {:?} pn {} with {} body bytes", b.ptype, b.pn, b.body.len()), || rj(Some(bit)));
-        }
-        for (path, why) in &out.conn_errors {
-            res.found.add(format!("tamper/connection-error-before-aead/{path}"), format!("coalesced datagram, bit {bit} (packet {owner}, {}): wrapper returned Some(Err(\"{why}\"))", region_in(&sents, bit)), || rj(Some(bit)));
-        }
-        if r.phase() != before {
-            res.c(sub).rebuilds += 1;
-            match mk() {
-                Ok(x) => (ctx, sents, dgram) = x,
-                Err(e) => {
-                    res.found.add("machinery".into(), e, || rj(None));
-                    return res;
-                }
-            }
-        }
-    }
-    res
-}
-
-fn region_in(sents: &[Sent], bit: usize) -> String {
-    let mut start = 0;
-    for s in sents {
-        if bit / 8 < start + s.wire.len() {
-            return region(s, bit - start * 8);
-        }
-        start += s.wire.len();
-    }
-    "?".into()
-}
-
-// ------------------------------------------------------------------------------------------
-// case lists
-// ------------------------------------------------------------------------------------------
-
-fn case(suite: &str, dir: Dir, ptype: PType, cid_len: usize, body: Body, pn: Pn, spin: bool, scenario: &str) -> Case {
-    Case { suite: suite.into(), dir, ptype, cid_len, body, pn, spin, scenario: scenario.into() }
-}
-
-const SCENARIOS: [&str; 7] = ["k0", "snd-upd1", "rcv-upd1", "rcv-upd1-followed", "both-upd1", "snd-upd2", "rcv-upd2"];
-
-fn cases(thorough: bool, with_no_phase_out: bool) -> Vec<Case> {
-    let mut v = Vec::new();
-    let types = |tokens: &[usize]| -> Vec<PType> {
-        let mut t: Vec<PType> = tokens.iter().map(|n| PType::Initial { token: *n }).collect();
-        t.extend([PType::ZeroRtt, PType::Handshake, PType::OneRtt]);
-        t
-    };
-    let mut scen: Vec<&str> = SCENARIOS.to_vec();
-    if with_no_phase_out {
-        scen.push("snd-upd2-no-phase-out");
-    }
-    if !thorough {
-        // A: the grid of the design, client → server
-        for pt in types(&[0, 1, 64]) {
-            for cid in [0, 8, 20] {
-                for body in [Body::Min, Body::MinPlus1, Body::Len(100), Body::Full] {
-                    for pn in [P1, P2, P3, P4] {
-                        v.push(case("aes128gcm", Dir::C2S, pt, cid, body, pn, false, "k0"));
-                    }
-                }
-            }
-        }
-        // B: server → client
-        for pt in [PType::Initial { token: 0 }, PType::Handshake, PType::OneRtt] {
-            for cid in [0, 8, 20] {
-                for body in [Body::Min, Body::Len(100)] {
-                    for pn in [P2_FIRST, P4, P2_MAX] {
-                        v.push(case("aes128gcm", Dir::S2C, pt, cid, body, pn, true, "k0"));
-                    }
-                }
-            }
-        }
-        // C: key updates on either side
-        for s in scen.iter().filter(|s| **s != "k0") {
-            for dir in [Dir::C2S, Dir::S2C] {
-                for body in [Body::Min, Body::Len(100)] {
-                    v.push(case("aes128gcm", dir, PType::OneRtt, 8, body, P2, dir == Dir::S2C, s));
-                }
-            }
-        }
-        // D: the other two AEADs / header-protection ciphers
-        for suite in ["aes256gcm", "chacha20poly1305"] {
-            for (pt, s) in [(PType::ZeroRtt, "k0"), (PType::Handshake, "k0"), (PType::OneRtt, "k0"), (PType::OneRtt, "snd-upd1")] {
-                for body in [Body::Min, Body::Len(100), Body::Full] {
-                    for pn in [P1, P2, P3, P4] {
-                        v.push(case(suite, Dir::C2S, pt, 8, body, pn, true, s));
-                    }
-                }
-            }
-        }
-    } else {
-        let cids: Vec<usize> = (0..=20).collect();
-        let bodies = [Body::Min, Body::MinPlus1, Body::Len(50), Body::Len(100), Body::Len(600), Body::Full];
-        let pns = [P1, P2_FIRST, P2, P3, P4, P2_MAX, P4_MAXGAP];
-        for (suite, _) in keys::SUITES {
-            for dir in [Dir::C2S, Dir::S2C] {
-                for pt in types(&[0, 1, 63, 64, 200]) {
-                    if pt == PType::ZeroRtt && dir == Dir::S2C {
-                        continue;
-                    }
-                    if matches!(pt, PType::Initial { .. }) && suite != "aes128gcm" {
-                        continue; // Initial keys do not depend on the negotiated suite
-                    }
-                    for &cid in &cids {
-                        // every CID length with two body sizes, the full body × pn grid at 0/8/20
-                        let grid = matches!(cid, 0 | 8 | 20);
-                        for body in bodies {
-                            if !grid && !matches!(body, Body::Min | Body::Len(100)) {
-                                continue;
-                            }
-                            for pn in pns {
-                                if !grid && !matches!(pn, p if p == P1 || p == P4) {
-                                    continue;
-                                }
-                                v.push(case(suite, dir, pt, cid, body, pn, cid % 2 == 1, "k0"));
-                            }
-                        }
-                    }
-                }
-                for s in scen.iter().filter(|s| **s != "k0") {
-                    for cid in [0, 8, 20] {
-                        for body in [Body::Min, Body::Len(100), Body::Full] {
-                            for pn in [P1, P2, P4] {
-                                v.push(case(suite, dir, PType::OneRtt, cid, body, pn, true, s));
-                            }
-                        }
-                    }
-                }
-            }
-        }
-    }
-    v
-}
-
-fn two_bit_cases() -> Vec<Case> {
-    let mut v = Vec::new();
-    for pt in [PType::Initial { token: 0 }, PType::ZeroRtt, PType::Handshake, PType::OneRtt] {
-        for pn in [P1, P4] {
-            v.push(case("aes128gcm", Dir::C2S, pt, 0, Body::Min, pn, false, "k0"));
-        }
-    }
-    v.push(case("chacha20poly1305", Dir::C2S, PType::OneRtt, 8, Body::Min, P2, true, "snd-upd1"));
-    v
-}
-
-/// Does anything in the tree outside `keys.rs` call `phase_out(`? (text scan; decides whether
-/// the "nobody phases out" receiver is the real one)
-fn phase_out_callers() -> Vec<String> {
-    fn walk(dir: &std::path::Path, out: &mut Vec<String>) {
-        let Ok(rd) = std::fs::read_dir(dir) else { return };
-        let mut entries: Vec<_> = rd.flatten().map(|e| e.path()).collect();
-        entries.sort();
-        for p in entries {
-            let name = p.file_name().and_then(|n| n.to_str()).unwrap_or("");
-            if p.is_dir() {
-                if matches!(name, "target" | ".git" | "tests" | "examples" | "benches") {
-                    continue;
-                }
-                walk(&p, out);
-            } else if name.ends_with(".rs") && !p.ends_with("qbase/src/packet/keys.rs") {
-                if let Ok(s) = std::fs::read_to_string(&p) {
-                    if s.lines().any(|l| l.contains(".phase_out(") && !l.trim_start().starts_with("//")) {
-                        out.push(p.display().to_string());
-                    }
-                }
-            }
-        }
-    }
-    let mut out = Vec::new();
-    walk(std::path::Path::new("/repo"), &mut out);
-    out
-}
-
-// ------------------------------------------------------------------------------------------
-// entry points
-// ------------------------------------------------------------------------------------------
-
-fn replay(args: &Args, path: &std::path::Path) -> i32 {
-    let r = mc_core::report::load_replay(path);
-    let sub = r["sub"].as_str().unwrap_or("").to_string();
-    let _ = args;
-    if sub == "coalesced" {
-        let c: CoalescedCase = match serde_json::from_value(r["case"].clone()) {
-            Ok(c) => c,
-            Err(e) => {
-                eprintln!("replay: bad case: {e}");
-                return 2;
-            }
-        };
-        let bits: Vec<usize> = r["bit"].as_u64().map(|b| b as usize).into_iter().collect();
-        let mut code = 0;
-        for _attempt in 0..8 {
-            let res = run_coalesced(&c, Some(bits.clone()));
-            code = print_found(&res);
-            if code != 0 {
-                break;
-            }
-        }
-        return code;
-    }
-    let case: Case = match serde_json::from_value(r["case"].clone()) {
-        Ok(c) => c,
-        Err(e) => {
-            eprintln!("replay: bad case: {e}");
-            return 2;
-        }
-    };
-    let tamper: Tamper = match serde_json::from_value(r["tamper"].clone()) {
-        Ok(t) => t,
-        Err(e) => {
-            eprintln!("replay: bad tamper: {e}");
-            return 2;
-        }
-    };
-    println!("replay: case {}", serde_json::to_string(&case).unwrap());
-    println!("replay: tamper {tamper:?}");
-    // Handshake / 0-RTT / 1-RTT keys are fresh random keys in every run. A witness that goes
-    // through a garbled header-protection mask (wrong key, flipped sample bit) reproduces with
-    // probability 3/4 per key set, so such a replay is repeated with fresh keys.
-    const ATTEMPTS: usize = 8;
-    for attempt in 1..=ATTEMPTS {
-        let code = replay_once(&case, &tamper);
-        if code != 0 {
-            println!("replay: reproduced on attempt {attempt} of {ATTEMPTS}");
-            return code;
-        }
-        if matches!(tamper, Tamper::None) {
-            break;
-        }
-    }
-    println!("replay: no violation");
-    0
-}
-
-fn replay_once(case: &Case, tamper: &Tamper) -> i32 {
-    let (case, tamper) = (case.clone(), tamper.clone());
-    let live = match build(&case) {
-        Ok(l) => l,
-        Err((sig, detail)) => {
-            println!("replay: {sig} — {detail}");
-            return if sig == "machinery" { 2 } else { 1 };
-        }
-    };
-    println!("replay: protected packet ({} bytes): {}", live.sent.wire.len(), hex(&live.sent.wire[..live.sent.wire.len().min(64)]));
-    match check_roundtrip(&case, &live) {
-        Ok(_) => println!("replay: untouched packet round-trips"),
-        Err((sig, detail)) => {
-            println!("replay: {sig} — {detail}");
-            return 1;
-        }
-    }
-    if tamper == Tamper::None {
-        return 0;
-    }
-    let clause = match &tamper {
-        Tamper::WrongPn { .. } => "wrongpn",
-        Tamper::WrongKey { .. } => "wrongkey",
-        _ => "tamper",
-    };
-    match eval_tamper(&case, &live, &tamper) {
-        Err(p) => {
-            println!("replay: panic/{} — {} at {}", p.class(), p.message, p.location);
-            1
-        }
-        Ok((out, changed)) => {
-            println!(
-                "replay: outcome {} via {} ({}); {} packet(s) parsed, {} header-protection removal(s), {} AEAD attempt(s); receiver key state changed: {}",
-                out.verdict.name(), out.path, out.why, out.packets, out.hp_removals, out.aead_attempts,
-                if matches!(tamper, Tamper::WrongKey { .. }) { "n/a".to_string() } else { changed.to_string() }
-            );
-            let mut code = 0;
-            if let Some((sig, detail)) = judge(&case, clause, &tamper, &live, &out) {
-                println!("replay: {sig} — {detail}");
-                code = 1;
-            }
-            if changed && out.verdict == Verdict::Dropped && !matches!(tamper, Tamper::WrongKey { .. }) {
-                match check_roundtrip(&case, &live) {
-                    Ok(_) => println!("replay: genuine packet still delivered after the unauthenticated key update"),
-                    Err((sig, detail)) => {
-                        println!("replay: tamper/receiver-state-corrupted/{} — {detail}", sig.replace('/', "."));
-                        code = 1;
-                    }
-                }
-            }
-            code
-        }
-    }
-}
-
-fn print_found(res: &CaseResult) -> i32 {
-    if res.found.v.is_empty() {
-        println!("replay: no violation");
-        return 0;
-    }
-    for (sig, (detail, _, hits, _)) in &res.found.v {
-        println!("replay: {sig} (x{hits}) — {detail}");
-    }
-    if res.found.v.keys().all(|k| k == "machinery") { 2 } else { 1 }
-}
-
-pub fn run(args: &Args) -> i32 {
-    if let Some(p) = &args.replay {
-        mc_core::panics::install_hook();
-        return replay(args, p);
-    }
-    let mut report = Report::new(args, "exploration");
-    let started = Instant::now();
-    let cap = Duration::from_secs(if args.thorough { 420 } else { 50 });
-
-    // machinery self-check: the handshake must produce every key set
-    for (name, cs) in keys::SUITES {
-        match keys::handshake(cs, true) {
-            Ok(h) if h.zero_rtt.is_some() => {}
-            Ok(_) => {
-                eprintln!("machinery error: resumed handshake with {name} yielded no 0-RTT keys");
-                return 2;
-            }
-            Err(e) => {
-                eprintln!("machinery error: rustls handshake with {name} failed: {e}");
-                return 2;
-            }
-        }
-    }
-    report.assume("keys: Initial = rustls::quic::Keys::initial(V1, TLS13_AES_128_GCM_SHA256, RFC 9001 A.1 DCID); Handshake, 0-RTT (resumed session), 1-RTT keys and Secrets from a real in-process rustls (ring) QUIC handshake with /repo/tests/keychain/localhost, fresh per case — key bytes differ from run to run, outcome classes do not");
-    report.assume("receiver model: all of its side's keys installed; routing = DCID equality (QuicRouter::find_entry); VN/Retry ignored (RcvdPacketQueue::deliver); pn decoder = PacketNumber::decode(largest received + 1) with no duplicate/too-old hit (RcvdJournal::decode_pn on empty slots); the <1100-byte Initial datagram filter of qtraversal::route is above this layer and not applied");
-    match rx::wrapper_fingerprint() {
-        Ok(h) if h == rx::WRAPPER_FNV => report.assume(
-            "CipherPacket::decrypt_{long,short}_packet (qinterface, not linkable from h-base) replicated statement for statement in c06/rx.rs; source fingerprint of the real functions matches the replicated revision",
-        ),
-        other => {
-            report.caps_hit.push(format!(
-                "qinterface/src/component/route/packet.rs decrypt_* differs from the revision replicated in c06/rx.rs ({other:?} vs {:#x}): the wrapper itself is NOT covered by this run — re-replicate",
-                rx::WRAPPER_FNV
-            ));
-        }
-    }
-    let callers = phase_out_callers();
-    let with_no_phase_out = callers.is_empty();
-    if with_no_phase_out {
-        report.assume("no caller of OneRttPacketKeys::phase_out() exists in /repo outside qbase/src/packet/keys.rs (text scan at run time): the scenario 'snd-upd2-no-phase-out' is the receiver the tree actually builds");
-    } else {
-        report.notes.push(format!("phase_out() is called from {callers:?}: scenario 'snd-upd2-no-phase-out' skipped (whether it is called at the right time is for the full-stack checks)"));
-    }
-
-    report.notes.push("observed, not judged: a tampered short-header packet whose key-phase bit differs after unmasking makes OneRttPacketKeys::get_remote() run update() (the receiver's own send keys and phase rotate) BEFORE the AEAD check; the packet is then dropped and the genuine packet is still delivered (checked after every such event; counted in unauthenticated_key_updates_at_receiver)".into());
-    report.notes.push("observed, not judged: PacketNumber::encode() leaves bits above the 24th set inside PacketNumber::U24, so encode(pn, la).decode(e) without the wire round trip mis-decodes for pn >= 2^24; on the wire only 3 bytes are written, so the receive path is unaffected".into());
-    report.notes.push("observed: the short-header fixed bit is never checked by be_packet_type (flip => AEAD failure => drop); the long-header fixed bit is checked at parse (InvalidFixedBit => drop); qtraversal::route builds PacketReader with a hard-coded dcid_len of 8, this check drives PacketReader with the receiver's real CID length".into());
-
-    let all = cases(args.thorough, with_no_phase_out);
-    let mut merged: BTreeMap<&'static str, Counts> = BTreeMap::new();
-    let mut samples: BTreeMap<&'static str, Vec<Value>> = BTreeMap::new();
-    let mut done = 0usize;
-    let mut capped = false;
-    let mut all_found = Found::default();
-    let absorb = |all_found: &mut Found, results: Vec<CaseResult>, merged: &mut BTreeMap<&'static str, Counts>, samples: &mut BTreeMap<&'static str, Vec<Value>>| {
-        for r in results {
-            all_found.merge(r.found);
-            for (sub, c) in &r.counts {
-                merged.entry(sub).or_default().merge(c);
-            }
-            if let Some(s) = r.sample {
-                let sub = if r.counts.contains_key("coalesced") {
-                    "coalesced"
-                } else if r.counts.contains_key("key-update") {
-                    "key-update"
-                } else {
-                    "roundtrip"
-                };
-                let e = samples.entry(sub).or_default();
-                if e.len() < 3 {
-                    e.push(s);
-                }
-            }
-        }
-    };
-    if ["roundtrip", "bitflip", "wrong-pn", "wrong-key", "key-update"].iter().any(|s| args.wants(s)) {
-        for chunk in all.chunks(256) {
-            if started.elapsed() > cap {
-                capped = true;
-                break;
-            }
-            let results = par_map(chunk, |c| run_case(c, Mode::Normal));
-            done += chunk.len();
-            absorb(&mut all_found, results, &mut merged, &mut samples);
-        }
-        if capped {
-            report.caps_hit.push(format!("wall-clock cap {:?}: {done} of {} cases explored (in list order)", cap, all.len()));
-        }
-    }
-    if args.wants("coalesced") {
-        let mut cc = Vec::new();
-        for (suite, _) in keys::SUITES.iter().take(if args.thorough { 3 } else { 1 }) {
-            for cid in [0usize, 8, 20] {
-                for dir in [Dir::C2S, Dir::S2C] {
-                    cc.push(CoalescedCase { suite: suite.to_string(), cid_len: cid, dir });
-                }
-            }
-        }
-        let results = par_map(&cc, |c| run_coalesced(c, None));
-        absorb(&mut all_found, results, &mut merged, &mut samples);
-    }
-    if args.thorough && args.wants("bitflip2") && started.elapsed() < cap {
-        let tb = two_bit_cases();
-        let results = par_map(&tb, |c| run_case(c, Mode::TwoBitOnly));
-        for mut r in results {
-            // the round trip of these cases is already counted in the grid
-            r.counts.retain(|k, _| *k == "bitflip2");
-            r.sample = None;
-            absorb(&mut all_found, vec![r], &mut merged, &mut samples);
-        }
-    }
-
-    for (sig, (detail, replay, hits, _rank)) in all_found.v {
-        if sig == "machinery" {
-            eprintln!("machinery error: {detail}");
-            return 2;
-        }
-        report.violation(&sig, &detail, replay);
-        for _ in 1..hits {
-            report.violation(&sig, "", Value::Null);
-        }
-    }
-
-    let rules: BTreeMap<&str, &str> = BTreeMap::from([
-        ("roundtrip", "evaluations = datagrams presented to the receive path; non-trivial = distinct cases (suite, direction, type, token, cid length, body size, pn, pn length) whose untouched packet was delivered with identical header fields, unmasked first byte, pn bytes, decoded pn, key phase and body"),
-        ("key-update", "as roundtrip, after the scenario's update()/exchange/phase_out() prefix on the two ArcOneRttKeys"),
-        ("bitflip", "every single-bit flip of every round-tripping packet (all 8·len positions, also for full 1200-byte datagrams); evaluations = tampered datagrams presented; non-trivial = distinct (case, bit)"),
-        ("bitflip2", "every pair of bit positions of minimum-size packets"),
-        ("wrong-pn", "the untouched packet under a receiver position whose decode() differs from the sent pn; positions that decode to the sent pn are counted in same_pn_skipped, not evaluated"),
-        ("wrong-key", "the untouched packet against: the other direction's keys, another epoch's keys, the right header key with a wrong packet key, another connection's keys, and (1-RTT) a receiver two key generations ahead"),
-        ("coalesced", "Initial+Handshake+1-RTT in one datagram, every single-bit flip: nothing but untouched neighbours may be delivered, no connection error"),
-    ]);
-    for (sub, c) in &merged {
-        let mut extra = Map::new();
-        extra.insert("cases".into(), json!(c.cases));
-        extra.insert("roundtrip_ok".into(), json!(c.roundtrip_ok));
-        extra.insert("reached_header_protection_removal".into(), json!(c.hp_removals));
-        extra.insert("reached_aead".into(), json!(c.aead_attempts));
-        extra.insert("unauthenticated_key_updates_at_receiver".into(), json!(c.unauth_key_updates));
-        extra.insert("context_rebuilds".into(), json!(c.rebuilds));
-        extra.insert("same_pn_skipped".into(), json!(c.same_pn_skipped));
-        extra.insert("outcomes".into(), json!(c.hist));
-        report.sub(
-            sub,
-            Coverage {
-                evaluations: c.receive_attempts,
-                distinct_nontrivial: c.distinct,
-                exhaustive: !capped,
-                rule: rules.get(sub).copied().unwrap_or("").to_string(),
-                samples: samples.get(sub).cloned().unwrap_or_default(),
-                extra,
-                ..Default::default()
-            },
-        );
-    }
-    report.finish()
+//! C06 — moved to the h-conn crate (it drives the real `qinterface` `CipherPacket`):
+//! `/verif/harness/h-conn/src/c06.rs`.
+use mc_core::Args;
+
+pub fn run(_args: &Args) -> i32 {
+    eprintln!("C06: moved to h-conn (target/checked/h-conn C06)");
+    2
 }
